@@ -129,9 +129,22 @@ pub fn gen_amount(r: &mut Rng) -> u128 {
 }
 
 /// Decimal atomics: rates, prices, indices
+/// a decimal with EXACTLY k significant fractional digits, k uniform in 0..=18 (its decimal string, through
+/// which every Decimal <-> Decimal256 conversion of the contracts goes, has k digits after the point)
+pub fn short_fraction(r: &mut Rng) -> u128 {
+    let k = r.below(19) as u32;
+    let unit = 10u128.pow(18 - k);
+    let mut m = 1 + r.below128(10u128.pow(k.min(12) + 3));
+    if k > 0 && m % 10 == 0 {
+        m += 1 + r.below(9) as u128;
+    }
+    m.saturating_mul(unit)
+}
+
 pub fn gen_rate(r: &mut Rng) -> u128 {
     match r.below(100) {
-        0..=9 => r.pick(&[0u128, 1, E18 - 1, E18, E18 + 1]),
+        0..=5 => r.pick(&[0u128, 1, E18 - 1, E18, E18 + 1]),
+        6..=9 => short_fraction(r),
         10..=39 => {
             // around 1.0 : 1e18 +- up to 10%
             let dlt = r.below128(E18 / 10);
@@ -454,7 +467,8 @@ fn case_drewards(r: &mut Rng) -> String {
         1..=9 => r.below128(10 * E18),
         10..=12 => r.below128(1000 * E18),
         13..=14 => r.log10(0, 30),
-        15..=17 => gen_rate(r),
+        15..=16 => gen_rate(r),
+        17 => short_fraction(r),
         _ => r.below(1_000_000) as u128,
     };
     let a = index(r);
